@@ -100,6 +100,7 @@ def fast_sir(ctx, drv):
         G, lab = sims.build_graph(c)
         idx = gen.index_of(G)
         log = {}
+        calls = []          # Markov fast path: (node, #susceptible neighbours, #recipients, duration, RNG calls made for this node)
         orig = sim.fast_nonMarkov_SIR
 
         def wrapper(G_, trans_time_fxn=None, rec_time_fxn=None, trans_and_rec_time_fxn=None, trans_time_args=(),
@@ -115,8 +116,10 @@ def fast_sir(ctx, drv):
                 return orig(G_, trans_and_rec_time_fxn=joint, **kw)
 
             def joint2(node, sus, *a):
+                mark = len(tr.trace)
                 td, d = trans_and_rec_time_fxn(node, sus, *a)
                 log[idx[node]] = ([[idx[v], ers(x)] for v, x in td.items()], ers(d))
+                calls.append((idx[node], len(sus), len(td), d, list(tr.trace[mark:])))
                 return td, d
             return orig(G_, trans_and_rec_time_fxn=joint2, trans_and_rec_time_args=trans_and_rec_time_args, **kw)
 
@@ -143,11 +146,32 @@ def fast_sir(ctx, drv):
         joint = [list(log.get(u, ([], "inf"))) for u in range(c["n"])]
         markov_path = c.get("ew") is None and F(c["tau"]) * F(c["gamma"]) != 0
         ctx.count("fast_SIR:%s" % ("markov-path" if markov_path else "per-edge-path"))
-        # logged binomial p must be 1-exp(-tau*duration)
-        import math
-        for call in tr.trace:
-            if call[0] == "b":
-                pass
+        # Markov fast path (`_trans_and_rec_time_Markovian_const_trans_`): the draws made for each newly infected node
+        # must be the chain's: duration ~ Exp(gamma * w_u), #recipients ~ Binomial(#sus, 1-exp(-tau*duration)),
+        # recipients = uniform sample, each delay from Exp(tau) folded into [0, duration)   (laws: Props/C01b, C01c)
+        if markov_path:
+            import math
+            tau_, gam_ = float(F(c["tau"])), float(F(c["gamma"]))
+            nw = c.get("nw")
+            inv = {v: k for k, v in li.items()}
+            for (u, nsus, nrec, dur, seg) in calls:
+                want_rate = gam_ * (float(F(nw[inv[u]])) if nw is not None else 1.0)
+                bad = None
+                if not seg or seg[0][0] != "e" or float(seg[0][1]) != want_rate:
+                    bad = "infectious period of node %d drawn as %s, the chain's recovery rate is gamma*w = %r" % (u, seg[:1], want_rate)
+                elif len(seg) < 3 or seg[1][0] != "b" or seg[1][1] != nsus or abs(seg[1][2] - (1 - math.exp(-tau_ * dur))) > 1e-12:
+                    bad = "number of recipients of node %d drawn as %s, expected Binomial(%d, 1-exp(-tau*duration)=%r)" % (
+                        u, seg[1:2], nsus, 1 - math.exp(-tau_ * dur))
+                elif seg[2][0] != "s" or seg[2][1] != nsus or seg[2][2] != nrec:
+                    bad = "recipients of node %d chosen by %s, expected a uniform sample of %d out of %d" % (u, seg[2:3], nrec, nsus)
+                elif [x[0] for x in seg[3:]] != ["e"] * nrec or any(float(x[1]) != tau_ for x in seg[3:]):
+                    bad = "transmission delays of node %d drawn as %s, expected %d draws from Exp(tau=%r)" % (u, seg[3:], nrec, tau_)
+                if bad:
+                    ctx.violation("fast_SIR (constant-transmission-rate path): " + bad, dict(rep, node=u, rng_calls=seg, tape=tr.log))
+                    break
+            ctx.count("fast_SIR:markov-path-nodes-checked", len(calls))
+            if nw is not None:
+                ctx.count("fast_SIR:markov-path-with-recovery-weight")
         reqs.append(esir_req(c, G, idx, li, infs, recs, impl=(full["transmissions"], recoveries(full, recs)), joint=joint))
         metas.append((dict(rep, tape=tr.log), full, plain, infs))
     for (rep, full, plain, infs), m in zip(metas, drv.batch(reqs)):
